@@ -153,7 +153,7 @@ def run(ctx: Ctx):
     # tracking scores depend on the immediately preceding frame result only (and the scene pools all frames)
     from . import tracking_manager
 
-    ctx.extra["manager_tracking_traces"] = tracking_manager.run(ctx, renderings=("base_link",), n=15 if ctx.quick else 150)
+    ctx.extra["manager_tracking_traces"] = tracking_manager.run(ctx, renderings=("base_link",), n=40 if ctx.quick else 300)
     ctx.exhaustive = True
     ctx.rule = (
         "TLC explores every sequence of up to 2 (quick) / 3 (thorough) add_frame_result calls over two worlds (2 ground-truth frames x 3 estimate "
